@@ -704,11 +704,14 @@ package core
 
 // ---- C03: query semantics (data flow between sub-queries; the matcher and otto are opaque) -------
 // Interface contract of Query.Exec as ghost records: what it was given and what it returned.
+// Assumed frame: a sub-query builds new binding lists; it does not overwrite elements of the list it was given,
+// nor the query objects.
 //@ ghost execIn []Bindings
 //@ ghost execOut []Bindings
 //@ iface Query.Exec
 //@   ghost-ensures execIn == old(arg3.Bss) && (result1 == nil ==> result0 != nil && execOut == result0.Bss)
 //@   also-modifies execIn, execOut
+//@   modifies allbut(E:map[string]interface{}|F:core.QueryResult.|F:core.AndQuery.|F:core.OrQuery.|F:core.NotQuery.|F:core.PatternQuery.)
 
 //@ func (EmptyQuery).Exec
 //@   ensures[C03.empty_is_identity] result1 == nil && result0 != nil && result0.Bss == qr.Bss
